@@ -1260,7 +1260,12 @@ def _key(case):
 
 def run(rep, tier, seed):
   types = TYPES7 if tier == "quick" else TYPES13
-  progs = specs_for(tier)
+  # thorough: the 13-type covering family (169 rows per program) on the quick program set plus the
+  # inferred-stub-only programs of the thorough set (the full thorough set x 169 rows is several hours)
+  progs = specs_for("quick")
+  if tier != "quick":
+    have = {src for _, _, src in progs}
+    progs = progs + [("inf", spec, src) for _, spec, src in specs_for("thorough") if src not in have]
   items = []
   nstub = 0
   maxslots = 0
